@@ -18,6 +18,7 @@
 #include "fastscapelib/utils/utils.hpp"
 #include "fastscapelib/utils/consts.hpp"
 #include "fastscapelib/utils/union_find.hpp"
+#include "fastscapelib/utils/verif_hooks.hpp"
 
 
 namespace fastscapelib
@@ -460,6 +461,9 @@ namespace fastscapelib
     template <class FG>
     void basin_graph<FG>::compute_tree_boruvka()
     {
+#ifdef FASTSCAPELIB_VERIF_HOOKS
+        m_max_low_degree = verif::boruvka_max_low_degree().load();
+#endif
         const auto nbasins = basins_count();
 
         // used to (re)initalize container index / position
